@@ -23,7 +23,9 @@ def wrong_values(node):
         if r == "N":
             return ["abc", None]
         return [(1.0,), "ab"]
-    return ["abc", None, [1.0]]
+    import decimal
+
+    return ["abc", complex(1.0, 1.0), decimal.Decimal("1.5"), None, [1.0]]
 
 
 def failing_nodes(spec):
@@ -75,6 +77,81 @@ def run_stream(spec, stream, fail_at, nid, mode, val):
     return out, nraised
 
 
+def run_stream_missing(spec, stream, fail_at, field):
+    """String-expression quantities; the records at fail_at lack `field`, so evaluating a quantity that reads it must
+    raise (NameError) - every time, whatever earlier records looked like - and leave the tree untouched."""
+    from .c11 import with_qk
+
+    sspec = with_qk(spec, "str")
+    args = {"spec": spec, "stream": core.show_evs(stream), "fail_at": sorted(fail_at), "field": field, "mode": "missing"}
+    out = []
+    h = S.build(sspec)
+    survivors = []
+    nraised = 0
+    for i, (r, w) in enumerate(stream):
+        if i in fail_at:
+            bad = {k: v for k, v in A.fresh(r).items() if k != field}
+            before = h.toJson()
+            try:
+                h.fill(bad, w)
+            except Exception:
+                nraised += 1
+                d = C.diff(h.toJson(), before, tol_keys=())
+                if d:
+                    out.append(core.v_diff(PROP, "missing-field", "state changed by a fill that raised", d, h.toJson(), args,
+                                           {"step": i}))
+                    return out, nraised
+                continue
+            if w > 0 and reads_on_path(spec, r, field):
+                out.append(FW.violation(PROP, "missing-field", "string quantity on a record lacking its field",
+                                        "record-accepted-instead-of-raising", args, {"step": i}))
+                return out, nraised
+            survivors.append((dict(r), w))
+        else:
+            try:
+                h.fill(A.fresh(r), w)
+            except Exception as e:
+                out.append(core.v_exc(PROP, "missing-field", "healthy record raised", e, args, {"step": i}))
+                return out, nraised
+            survivors.append((r, w))
+    d = core.ref_diff(h, sspec, survivors)
+    if d:
+        out.append(core.v_diff(PROP, "missing-field", "final state differs from the aggregate of the surviving records", d,
+                               h.toJson(), args))
+    return out, nraised
+
+
+def reads_on_path(spec, rec, field):
+    """Does filling `rec` into the tree evaluate a quantity that reads `field`? (the root's quantity always is; below,
+    only along the path the record takes - decided with the reference routing)"""
+    from ..refmodel import bin_route
+
+    node = spec
+    while True:
+        if node.get("q") == field:
+            return True
+        t = node["t"]
+        if t in ("Select",):
+            s_ = rec[node["q"]]
+            if not (s_ * 1.0 > 0):
+                return False
+            node = node["v"]
+        elif t in S.BINNING:
+            x = float(rec[node["q"]])
+            if x != x:
+                node = node.get("nf", {"t": "Count"})
+            elif t == "Bin" and x < node["p"][1]:
+                node = node.get("uf", {"t": "Count"})
+            elif t == "Bin" and x >= node["p"][2]:
+                node = node.get("of", {"t": "Count"})
+            else:
+                node = node["v"]
+        elif t == "Categorize":
+            node = node["v"]
+        else:
+            return False
+
+
 def _tree(task):
     spec, tier = task
     acc = FW.Acc()
@@ -86,7 +163,7 @@ def _tree(task):
     evs = [(r, 1.0) for r in recs]
     nodes = failing_nodes(spec)
     for nid, node in nodes:
-        faults = [("raise", None)] + [("wrong", v) for v in wrong_values(node)[: (1 if tier == "quick" else 3)]]
+        faults = [("raise", None)] + [("wrong", v) for v in wrong_values(node)[: (3 if tier == "quick" else 5)]]
         for mode, val in faults:
             for k in range(1, n + 1):
                 for seq in itertools.product(range(len(evs)), repeat=k):
@@ -104,6 +181,21 @@ def _tree(task):
                             acc.n("subsets_of_size_%d" % size)
                             if size:
                                 acc.distinct("cases", FW.hkey((S.key(spec), nid, mode, repr(val), seq, fail_at)))
+    # missing-field failures of string-expression quantities (no injected wrapper: the library's own evaluation)
+    if not any(n.get("qk") or n.get("tr") for _, _, n in S.node_ids(spec)):
+        for field in sorted(S.fields(spec)):
+            for k in range(1, min(n, 3) + 1):
+                for seq in itertools.product(range(len(evs)), repeat=k):
+                    stream = [evs[i] for i in seq]
+                    for size in range(1, k + 1):
+                        for fail_at in itertools.combinations(range(k), size):
+                            vs, nr = run_stream_missing(spec, stream, set(fail_at), field)
+                            acc.add(vs)
+                            acc.n("executions")
+                            acc.n("missing_field_cases")
+                            acc.n("faults_injected", size)
+                            acc.n("faults_that_raised", nr)
+                            acc.distinct("cases", FW.hkey((S.key(spec), "missing", field, seq, fail_at)))
     if nodes:
         acc.sample({"tree": S.sid(spec), "stream": [core.compact(r, spec) for r, _ in evs[:2]],
                     "failing_node": nodes[-1][1]["t"], "modes": ["quantity raises", "quantity returns wrong type"],
@@ -150,6 +242,9 @@ def run(tier, seed):
 
 
 def replay(driver, args):
+    if driver == "missing-field":
+        vs, _ = run_stream_missing(args["spec"], core.unshow_evs(args["stream"]), set(args["fail_at"]), args["field"])
+        return vs
     val = A.unshow(args["val"])
     vs, _ = run_stream(args["spec"], core.unshow_evs(args["stream"]), set(args["fail_at"]), args["nid"], args["mode"], val)
     return vs
